@@ -287,6 +287,9 @@ type SAExtractor struct {
 	Rec  *Recorder
 	Pkgs int
 	Fail bool
+	// OnRun, when set, runs inside Extract (after the run was recorded); a non-nil error it
+	// returns is what Extract returns.
+	OnRun func(ctx context.Context) error
 }
 
 var _ standalone.Extractor = (*SAExtractor)(nil)
@@ -311,6 +314,11 @@ func (e *SAExtractor) Ecosystem(p *extractor.Package) string { return "" }
 // Extract implements standalone.Extractor.
 func (e *SAExtractor) Extract(ctx context.Context, input *standalone.ScanInput) (inventory.Inventory, error) {
 	e.Rec.Event("standalone:" + e.N)
+	if e.OnRun != nil {
+		if err := e.OnRun(ctx); err != nil {
+			return inventory.Inventory{}, err
+		}
+	}
 	if e.Fail {
 		return inventory.Inventory{}, errors.New("generated standalone failure")
 	}
@@ -330,6 +338,8 @@ type Detector struct {
 	// Seen receives the index and scan root handed to Scan.
 	Seen func(root *scalibrfs.ScanRoot, px *packageindex.PackageIndex)
 	Runs int
+	// OnRun, when set, runs inside Scan; a non-nil error it returns is what Scan returns.
+	OnRun func(ctx context.Context) error
 }
 
 var _ detector.Detector = (*Detector)(nil)
@@ -354,6 +364,11 @@ func (d *Detector) Scan(ctx context.Context, root *scalibrfs.ScanRoot, px *packa
 	}
 	if d.Seen != nil {
 		d.Seen(root, px)
+	}
+	if d.OnRun != nil {
+		if err := d.OnRun(ctx); err != nil {
+			return nil, err
+		}
 	}
 	var fs []*detector.Finding
 	if d.Findings != nil {
